@@ -548,7 +548,7 @@ func (p *parser) skipWhiteSpace() {
 			continue
 		}
 		if p.chr >= utf8.RuneSelf {
-			if unicode.IsSpace(p.chr) {
+			if unicode.Is(unicode.Zs, p.chr) { // 7.2 <USP>; IsSpace would also take U+0085
 				p.read()
 				continue
 			}
